@@ -74,7 +74,7 @@ FeatureTable == <<
   F("regexp-match-indices",           2022, "expr",   "/a/d", {}),
   F("arbitrary-module-namespace-names",2022,"module", "var an1 = 1; export { an1 as \"x y\" };", {}),
   F("hashbang",                       2023, "module", "#!/usr/bin/env node", {}),
-  F("regexp-set-notation",            2024, "expr",   "/[\\p{L}--a]/v", {}),
+  F("regexp-set-notation",            2024, "expr",   "/[[a-z]--b]/v", {}),
   F("import-attributes",              2025, "module", "import j1 from \"./data.json\" with { type: \"json\" }; b(j1);", {}),
   F("using",                          NoEdition, "stmt", "{ using u1 = a(); b(u1); }", {}),
   F("decorators",                     NoEdition, "stmt", "@a class Q1 { @b m() {} }", {})
@@ -137,6 +137,11 @@ AllowedSyntax(t, ov) ==
   IN  \* switching a feature off switches off what cannot exist without it
       {f \in base : Requires(f) \cap off = {}}
 
+\* A configuration that forces a feature on although something it cannot exist without is
+\* missing (supported:{for-await:true} for a target without async functions) is contradictory;
+\* such configurations are not part of the matrix (esbuild only repairs the opposite direction).
+Consistent(allowed, ov) == \A f \in DOMAIN ov : ov[f] => Requires(f) \subseteq allowed
+
 \* --- engine targets: what these engine versions really parse (node.green / MDN / V8 release
 \* notes; chosen away from version boundaries).  Used only as an upper bound: an output for
 \* the engine may not contain a feature outside this set.
@@ -151,7 +156,7 @@ EngineSyntax(e) ==
                                              "class-private-static-method", "class-private-accessor",
                                              "class-private-static-accessor", "top-level-await"}
     [] e = "node16.20" -> ByYear(2022) \cup {"hashbang"}
-    [] e = "node18.20" -> ByYear(2023)
+    [] e = "node18.20" -> ByYear(2023) \cup {"import-attributes"}
 Engines == {"node12.22", "chrome80", "node14.21", "node16.20", "node18.20"}
 EngineLists == {<<"node12.22">>, <<"chrome80">>, <<"node14.21">>, <<"node16.20">>, <<"node18.20">>,
                 <<"chrome80", "node12.22">>, <<"node16.20", "chrome80">>}
@@ -247,6 +252,8 @@ RequiresClosed ==
   /\ feat \in Overridable =>
        \A f \in AllowedSyntax(tgt, Ov(feat, FALSE)) : Requires(f) \subseteq AllowedSyntax(tgt, Ov(feat, FALSE))
   /\ \A e \in Engines : \A f \in EngineSyntax(e) : Requires(f) \subseteq EngineSyntax(e)
+  /\ (feat \in Overridable /\ Consistent(AllowedSyntax(tgt, Ov(feat, TRUE)), Ov(feat, TRUE))) =>
+       \A f \in AllowedSyntax(tgt, Ov(feat, TRUE)) : Requires(f) \subseteq AllowedSyntax(tgt, Ov(feat, TRUE))
 EdgesRight ==
   /\ AllowedSyntax(2015, NoOverride) = {}
   /\ AllowedSyntax(ESNext, NoOverride) = Features
@@ -274,16 +281,18 @@ ExportHeader(dummy) ==
 ExportAllow(dummy) ==
   /\ \A t \in Targets :
        /\ PrintT(<<"CASE", ToJson([kind |-> "allow", target |-> TargetName(t), engines |-> <<>>, year |-> t,
-                                   override |-> "none", allowed |-> AllowedSyntax(t, NoOverride)])>>)
+                                   override |-> "none", allowed |-> AllowedSyntax(t, NoOverride), consistent |-> TRUE])>>)
        /\ \A f \in Overridable : \A m \in {"on", "off"} :
             PrintT(<<"CASE", ToJson([kind |-> "allow", target |-> TargetName(t), engines |-> <<>>, year |-> t,
-                                     override |-> OvName(f, m), allowed |-> AllowedSyntax(t, OvOf(f, m))])>>)
+                                     override |-> OvName(f, m), allowed |-> AllowedSyntax(t, OvOf(f, m)),
+                                     consistent |-> Consistent(AllowedSyntax(t, OvOf(f, m)), OvOf(f, m))])>>)
   /\ \A es \in EngineLists :
        /\ PrintT(<<"CASE", ToJson([kind |-> "allow", target |-> "", engines |-> es, year |-> 0,
-                                   override |-> "none", allowed |-> AllowedEngines(es, NoOverride)])>>)
+                                   override |-> "none", allowed |-> AllowedEngines(es, NoOverride), consistent |-> TRUE])>>)
        /\ \A f \in Overridable : \A m \in {"on", "off"} :
             PrintT(<<"CASE", ToJson([kind |-> "allow", target |-> "", engines |-> es, year |-> 0,
-                                     override |-> OvName(f, m), allowed |-> AllowedEngines(es, OvOf(f, m))])>>)
+                                     override |-> OvName(f, m), allowed |-> AllowedEngines(es, OvOf(f, m)),
+                                     consistent |-> Consistent(AllowedEngines(es, OvOf(f, m)), OvOf(f, m))])>>)
 
 \* matrix behaviour: one state per cell (so that the cell count is TLC's state count)
 MInit == u \in Cells
